@@ -4,6 +4,7 @@ import (
 	"fmt"
 	"path/filepath"
 	"strings"
+	"sync"
 )
 
 func init() { registry["C18"] = checkC18 }
@@ -89,7 +90,9 @@ func c18Invocations(a *Abs, full bool) []inv {
 		add(bad || len(args) == 0, t, append([]string{"add"}, args...)...)
 		add(bad, t, append([]string{"hash-object"}, args...)...)
 		subsets([]string{"-r"}, func(fl []string) { add(bad, t, append(append([]string{"rm"}, fl...), args...)...) })
-		subsets([]string{"--staged"}, func(fl []string) { add(bad || len(args) == 0, t, append(append([]string{"restore"}, fl...), args...)...) })
+		subsets([]string{"--staged"}, func(fl []string) {
+			add(bad || len(args) == 0, t, append(append([]string{"restore"}, fl...), args...)...)
+		})
 	})
 	// ids
 	ids := idPool(a)
@@ -149,6 +152,10 @@ func c18Invocations(a *Abs, full bool) []inv {
 		add(true, t, "branch", "-d", n.v, "-r", n.v)
 		add(true, t, "branch", "--list", n.v)
 		add(true, t, "branch", n.v, "extra")
+		add(true, t, "branch", n.v, "-d", "ghost")
+		add(true, t, "branch", n.v, "-r", "ghost")
+		add(true, t, "branch", "fresh", "-d", n.v)
+		add(true, t, "branch", n.v, "--list")
 		add(false, t, "switch", n.v)
 		add(false, t, "switch", "-c", n.v)
 		add(true, t, "switch", "-c", n.v, "extra")
@@ -241,6 +248,8 @@ func c18Judge(c *Ctx, pre *State, iv inv, res *Result, post *State, module strin
 	return vs
 }
 
+var c18After sync.Map
+
 func checkC18(e *RunEnv) *CheckResult {
 	odd := append(seedS0(), Write("a(b", "x\n"), Write("x y", "x\n"), Write("d/x", "x\n"), Write("a+b", "x\n"), Write("é", "x\n"), Run("add", "a(b", "x y", "d", "a+b", "é"), Run("commit", "-m", "odd names"), Delete("a+b"))
 	seeds := append(allSeeds(), Seed{"odd-names", odd}, Seed{"dir-replaced-by-file", append(seedS1(), Rmdir("d"), Write("d", "now a file\n"))}, Seed{"file-replaced-by-dir", append(seedS1(), Write("a/u", "untracked inside a former file\n"))}, Seed{"mixed-case-branches", append(seedS1(), Run("branch", "C"), Run("branch", "d"), Run("branch", "Ab"))}, Seed{"no-repo", []Step{Write("a", "x\n")}}, Seed{"init-only", []Step{Run("init")}})
@@ -250,7 +259,19 @@ func checkC18(e *RunEnv) *CheckResult {
 	res := runSpecWith(e, spec, func(x *Explorer) {
 		module = e.B.Module
 		spec.CheckTrans = func(c *Ctx, pre *Node, st Step, r *Result, post *State) ([]Violation, bool) {
-			return c18Judge(c, pre.State, inv{st.Args, st.Invalid, st.Tags}, r, post, module), true
+			vs := c18Judge(c, pre.State, inv{st.Args, st.Invalid, st.Tags}, r, post, module)
+			// the state a successful command produced is a state Goit can produce: the everyday commands must not crash on it
+			if _, dup := c18After.LoadOrStore(post.Key(), true); !dup && r.Exit == 0 && post.Key() != pre.State.Key() {
+				for _, f := range append(append([][]string{}, roCmds...), []string{"commit", "-m", "x"}, []string{"switch", "main"}, []string{"reset", "--soft", "HEAD@{0}"}) {
+					fr, _ := c.Probe(post, nil, f...)
+					if fr.Panicked() || fr.TimedOut || (fr.Exit != 0 && fr.Exit != 1) {
+						vs = append(vs, Violation{Oracle: "no-crash-afterwards", Command: f[0], Tags: st.Tags, Trace: append(traceFor(c, pre, st), Run(f...)),
+							Detail: fmt.Sprintf("after `%s` (exit 0), `goit %s` ends with exit %d%s", st, strings.Join(f, " "), fr.Exit, outputTail(fr))})
+						break
+					}
+				}
+			}
+			return vs, true
 		}
 		var cs []Case
 		var bases []struct {
